@@ -19,10 +19,13 @@ def gen_case(rng, tier, wrap=False):
         n = rng.choice([1, 2, 3, 5, 10, 30]) if tier == 'quick' else rng.choice([1, 2, 3, 10, 60, 400])
         first = BASE + rng.randint(0, 20)
         days, d = [], first
+        sparse = rng.random() < 0.25
         while len(days) < n:
             if (d + 3) % 7 <= 4 and rng.random() < 0.9:
                 days.append(d)
             d += 1
+            if sparse and rng.random() < 0.3:
+                d += rng.choice([29, 30, 31, 45, 100, 400])      # suspended / monthly data: stale quotes stay the answer
         rows = []
         p = bl.dy(rng, 5, 300, 8)
         for d in days:
@@ -42,7 +45,11 @@ def gen_case(rng, tier, wrap=False):
                 if rng.random() < (0.6 if len(days) <= 10 else 0.08):
                     queries.append([name, d * DAY + off])
         queries += [[name, first * DAY + 52199], [name, (first - 1) * DAY + 75600], [name, (first - 3) * DAY],
-                    [name, (days[-1] + 1) * DAY], [name, (days[-1] + 30) * DAY + 3600], [name, days[-1] * DAY + 86399]]
+                    [name, (days[-1] + 1) * DAY], [name, (days[-1] + 30) * DAY + 3600], [name, days[-1] * DAY + 86399],
+                    [name, (days[-1] + 31) * DAY + 80000], [name, (days[-1] + rng.choice([45, 400, 4000])) * DAY + rng.randint(0, 86399)]]
+        for a_, b_ in zip(days, days[1:]):
+            if b_ - a_ > 20:
+                queries += [[name, (a_ + 30) * DAY + 75600], [name, (a_ + 30) * DAY + 75601], [name, b_ * DAY + 52199]]
         for _ in range(4):
             queries.append([name, rng.randint((first - 5) * DAY, (days[-1] + 5) * DAY)])
     c = {'assets': assets, 'adjust': adjust, 'queries': queries, 'stream': 'random', 'wrap': wrap}
